@@ -347,3 +347,6 @@ func EnvInt(name string, def int) int {
 	}
 	return def
 }
+
+// Pick3 returns one of three ints.
+func (r *Rng) Pick3(a, b, c int) int { return [3]int{a, b, c}[r.Intn(3)] }
